@@ -251,6 +251,12 @@ func calleeShortName(cc *ssa.CallCommon) string {
 		return f.Name()
 	case *ssa.MakeClosure:
 		return f.Fn.Name()
+	case *ssa.UnOp:
+		// a function value loaded from a captured variable, parameter cell or local: the variable's name
+		// (an SSA register name would change with every edit of the function)
+		if n := loadedVarName(f); n != "" {
+			return n
+		}
 	}
 	return cc.Value.Name()
 }
